@@ -286,6 +286,32 @@ def run_random(case, ctx, gen_opts=None):
     pitlib.sync_exported_bn(pit, exported)
     changed = check_structure(ctx, pit, exported, expect)
     compare_outputs(ctx, prog, pit, exported, case['seed'], 'random')
+    # the same wrapper, exported a second time after the masks moved: an alive and a pruned channel
+    # of every masker trade places (the number of alive channels stays the same)
+    if case['seed'] % 2 == 0:
+        from plinio.methods.pit.nn.features_masker import PITFrozenFeaturesMasker
+        moved = False
+        with torch.no_grad():
+            for names, m in pitlib.unique_maskers(pit)[0]:
+                if isinstance(m, PITFrozenFeaturesMasker):
+                    continue
+                a = m.alpha.data
+                alive = [i for i in range(a.numel() - 1) if abs(float(a[i])) > 0.5]
+                dead = [i for i in range(a.numel() - 1) if abs(float(a[i])) <= 0.5]
+                if alive and dead:
+                    i, j = mrng.choice(alive), mrng.choice(dead)
+                    a[i], a[j] = a[j].clone(), a[i].clone()
+                    moved = True
+        if moved:
+            ctx.cls('second-export-after-masks-moved')
+            try:
+                exported2 = pit.export()
+                exported2.eval()
+                pitlib.sync_exported_bn(pit, exported2)
+                compare_outputs(ctx, prog, pit, exported2, case['seed'], 'second-export')
+            except Exception as e:
+                ctx.violation('export-crash', {'sig': 'second:' + type(e).__name__,
+                                               'exc': repr(e)[:300], 'features': prog['features']})
     pruned = any(abs(v) <= 0.5 for a in assign for v in a['alpha'] if not a['frozen']) or \
         any(len(al) < max(al) + 1 for al, _ in expect.values())
     if pruned and changed:
